@@ -23,6 +23,8 @@ struct Bh {
     max_ticks: usize,
     max_drops: usize,
     max_panics: usize,
+    /// the executor may poll woken callers late (this many ticks may pass first)
+    late_ticks: usize,
 }
 
 struct X {
@@ -70,10 +72,13 @@ impl Scenario for Bh {
         self.prop
     }
     fn label(&self) -> String {
-        format!("bulkhead max={} max_wait={:?} callers={}", self.max, self.max_wait, self.callers)
+        format!("bulkhead max={} max_wait={:?} callers={}{}", self.max, self.max_wait, self.callers, if self.late_ticks > 0 { " late-polls" } else { "" })
     }
     fn callers(&self) -> usize {
         self.callers
+    }
+    fn late_ticks(&self) -> usize {
+        self.late_ticks
     }
     fn init(&self, w: &mut World) -> X {
         let mut b = BulkheadLayer::builder().max_concurrent_calls(self.max);
@@ -155,7 +160,8 @@ impl Scenario for Bh {
                     }
                     match (self.max_wait, cl.first_poll_ms, cl.done_ms) {
                         (Some(wt), Some(fp), Some(d)) => {
-                            if d != fp + wt {
+                            // with a late executor the rejection is seen late, never early
+                            if (self.late_ticks == 0 && d != fp + wt) || d < fp + wt {
                                 out.push(Viol::new("reject_not_at_deadline", site, format!("caller {c} first polled at {fp}, max_wait {wt}, rejected at {d}")));
                             }
                         }
@@ -165,7 +171,7 @@ impl Scenario for Bh {
                 }
                 Phase::Live => {
                     if let (Some(wt), Some(fp)) = (self.max_wait, cl.first_poll_ms) {
-                        if !has_inner(w, c) && now > fp + wt {
+                        if self.late_ticks == 0 && !has_inner(w, c) && now > fp + wt {
                             out.push(Viol::new("queued_past_deadline", site, format!("caller {c} first polled at {fp}, max_wait {wt}, still queued at {now}")));
                         }
                     }
@@ -209,6 +215,9 @@ impl Scenario for Bh {
         }
         if x.w_release_and_timeout {
             v.push("release_and_deadline_same_instant");
+        }
+        if w.late_ticks > 0 {
+            v.push("time_passed_while_a_woken_caller_was_unpolled");
         }
         if w.callers.iter().any(|c| c.phase == Phase::Panicked) {
             v.push("inner_panic_propagated");
@@ -282,8 +291,16 @@ fn configs(prop: &'static str, tier: Tier) -> Vec<Bh> {
                 max_ticks: tier.pick(3, 4),
                 max_drops: tier.pick(2, 3),
                 max_panics: 1,
+                late_ticks: 0,
             });
         }
+    }
+    // a late executor: woken callers (permit handed over, wait deadline passed) are polled up to two ticks late
+    for (max, max_wait) in [(1usize, Some(20u64)), (1, None), (2, Some(20))] {
+        if tier == Tier::Quick && max == 2 {
+            continue;
+        }
+        v.push(Bh { prop, max, max_wait, callers: 3, max_ticks: tier.pick(4, 5), max_drops: tier.pick(1, 2), max_panics: tier.pick(0, 1), late_ticks: 2 });
     }
     v
 }
@@ -327,10 +344,10 @@ fn main() {
     let mut rep = Report::new(prop, tier, "model_checking");
     rep.rule = "BFS over action histories {Arrive,Poll,Drop,Complete(ok|err|panic),Tick} of the real Bulkhead under virtual time; states are canonical fingerprints; each state also drained and probed".into();
     rep.assumptions = vec![
-        "prompt executor: virtual time does not advance while a woken caller is unpolled".into(),
+        "prompt executor: virtual time does not advance while a woken caller is unpolled (the late-polls configurations lift this for up to two ticks and drop the exact-deadline clause, which presupposes prompt polling)".into(),
         "interleaving granularity is one Future::poll (shared state is a tokio semaphore)".into(),
     ];
-    for w in ["queue_nonempty_while_full", "two_callers_pollable_at_one_instant", "drop_while_running", "drop_while_queued", "drop_before_first_poll", "reject_at_deadline", "inner_panic_propagated", "release_and_deadline_same_instant"] {
+    for w in ["queue_nonempty_while_full", "two_callers_pollable_at_one_instant", "drop_while_running", "drop_while_queued", "drop_before_first_poll", "reject_at_deadline", "inner_panic_propagated", "release_and_deadline_same_instant", "time_passed_while_a_woken_caller_was_unpolled"] {
         rep.require_witness(w);
     }
     let depth = tier.pick(9, 12);
